@@ -9,5 +9,8 @@ CONSTANTS
   AscPool = {1, 2, 3}
   ProbeMax = 16
   GopNum = 0
-INVARIANTS AllOk EndComplete
+  TJoin = TRUE
+  RJoin = TRUE
+  RMut = "none"
+INVARIANTS AllOk EndComplete RAllOk REndComplete
 ACTION_CONSTRAINT EmitA
